@@ -2,8 +2,8 @@
 //
 // A prover that follows Algorithms 7 and 9 of the range proof exactly, except that the caller chooses the
 // "square" parts of the two decompositions x' - aa = x_a_1^2 + x_a_2 and bb - x' = x_b_1^2 + x_b_2 and that
-// nothing is required of the remainders (they may be negative). All sub-proofs are produced by the library's own
-// private provers. Used by the /verif monitors to play a prover that does not follow the protocol.
+// nothing is required of the remainders (they may be negative); the bound it claims for them in the larger-interval
+// sub-proofs may also be given by the caller. All sub-proofs are produced by the library's own private provers. Used by the /verif monitors to play a prover that does not follow the protocol.
 
 use super::*;
 use crate::cl03::commitment::CL03Commitment;
@@ -20,6 +20,7 @@ impl Boudot2000RangeProof {
         rmax: &Integer,
         square_part_a: &Integer,
         square_part_b: &Integer,
+        larger_interval_bound: Option<&Integer>,
     ) -> Self
     where
         H: Digest,
@@ -29,10 +30,10 @@ impl Boudot2000RangeProof {
         let x = Integer::from(2).pow(T) * value;
         let r = Integer::from(2).pow(T) * &commitment.randomness;
         let E_prime = Integer::from(commitment.value.pow_mod_ref(&(Integer::from(2).pow(T)), n).unwrap());
-        let off = Integer::from(2).pow(l + t + rug::ops::DivRounding::div_floor(T, 2) + 1)
-            * Integer::from(Integer::from(rmax - rmin).sqrt_ref());
-        let aa = Integer::from(2).pow(T) * Integer::from(rmin) - &off;
-        let bb = Integer::from(2).pow(T) * Integer::from(rmax) + &off;
+        let aa = Integer::from(2).pow(T) * Integer::from(rmin);
+        let bb = Integer::from(2).pow(T) * Integer::from(rmax);
+        // the bound this prover claims for its remainders in the larger-interval sub-proofs (None: the protocol's own)
+        let cft_bound = larger_interval_bound.cloned().unwrap_or_else(|| Self::remainder_bound(rmin, rmax, T));
         let x_a = &x - aa;
         let x_b = bb - &x;
         let x_a_1 = square_part_a.clone();
@@ -60,8 +61,8 @@ impl Boudot2000RangeProof {
         let E_b_2 = com(&x_b_2, &r_b_2);
         let proof_of_square_a = Self::proof_of_square::<H>(&x_a_1, &r_a_1, g, h, &E_a_1, l, t, rmax, s, s1, s2, n);
         let proof_of_square_b = Self::proof_of_square::<H>(&x_b_1, &r_b_1, g, h, &E_b_1, l, t, rmax, s, s1, s2, n);
-        let proof_large_i_a = Self::proof_large_interval_specific::<H>(&x_a_2, &r_a_2, g, h, t, l, rmax, s, n, T);
-        let proof_large_i_b = Self::proof_large_interval_specific::<H>(&x_b_2, &r_b_2, g, h, t, l, rmax, s, n, T);
+        let proof_large_i_a = Self::proof_large_interval_specific::<H>(&x_a_2, &r_a_2, g, h, t, l, &cft_bound, s, n, T);
+        let proof_large_i_b = Self::proof_large_interval_specific::<H>(&x_b_2, &r_b_2, g, h, t, l, &cft_bound, s, n, T);
         Self {
             proof_of_tolerance: ProofWt { E_a_1, E_a_2, E_b_1, E_b_2, proof_of_square_a, proof_of_square_b, proof_large_i_a, proof_large_i_b },
             E_prime,
